@@ -63,9 +63,10 @@ class BitEval(object):
         self.f = f
         self.env = {}          # decl id -> Lin (ints) or list of Terms (words)
         self.names = {}
-        self.ypar = [p for p in f.params if p.name in ('y', 'col')]
-        self.npar = [p for p in f.params if p.name == 'n']
-        self.vpar = [p for p in f.params if p.name == 'values']
+        # (M, x, y, n[, values]) by position, whatever the parameters are called
+        self.ypar = [f.params[2]] if len(f.params) > 2 else []
+        self.npar = [f.params[3]] if len(f.params) > 3 else []
+        self.vpar = [f.params[4]] if len(f.params) > 4 else []
         self.rowvar = None
         self.blockvar = None
 
@@ -164,6 +165,7 @@ def rule_C7c(ctx, prog, label, rule='C7c'):
             raise AnalysisBroken('C7c: %s no longer has parameters y and n' % name)
         problems = []
         unknown = []
+        assigned = set()
         nterms = [0]
 
         def check_terms(terms, what, node, d_store=None):
@@ -215,6 +217,8 @@ def rule_C7c(ctx, prog, label, rule='C7c'):
                         if l is not None:
                             B.env[v.id] = l
                         continue
+                    if t in ('word',) and not (v.kids and v.init):
+                        continue
                     if t in ('word',):
                         if i0.kind == 'ConditionalOperator':
                             a, b = B.word(i0.kids[1]), B.word(i0.kids[2])
@@ -262,6 +266,21 @@ def rule_C7c(ctx, prog, label, rule='C7c'):
                 l = strip(e.kids[0], casts=True)
                 if l.kind == 'ArraySubscriptExpr':
                     problems.append((e, 'plain store `%s` into the row of a bit-range primitive' % pp(e)[:50]))
+                elif l.kind == 'DeclRefExpr' and (l.type or '').replace('const', '').strip() == 'word':
+                    # a word local assigned on several branches carries the union of the branch values
+                    w = B.word(e.kids[1])
+                    if w is None:
+                        unknown.append((e, '`%s` is not understood' % pp(e)[:60]))
+                    else:
+                        prev = B.env.get(l.refid)
+                        B.env[l.refid] = (prev if isinstance(prev, list) and l.refid in assigned else []) + w
+                        assigned.add(l.refid)
+                elif l.kind == 'DeclRefExpr' and (l.type or '').replace('const', '').strip() in ('int', 'wi_t', 'rci_t'):
+                    v = B.lin(e.kids[1])
+                    if v is not None and l.refid not in B.env:
+                        B.env[l.refid] = v
+                    elif v is None or not (B.env.get(l.refid) == v):
+                        unknown.append((e, 'integer local `%s` reassigned' % l.ref))
                 return
             if e.kind == 'CallExpr' and callee_name(e) in ('__assert_fail',):
                 return
